@@ -78,21 +78,41 @@ impl<K: Eq + Hash + Clone + Send + Sync + 'static, V: Send + Sync + 'static, T>
 
             // obtain the single-flight for fetching the value
             self.single_flight
-                .wait_or_work(key, || {
+                .wait_or_work(key, |flight| {
+                    // Look again now that the flight is registered. A write
+                    // that was made before the registration (and therefore
+                    // could not invalidate this flight) is either still in
+                    // the cache, where it stays pinned until it is committed,
+                    // or it is already in the store and `init` reads it.
+                    // (`entry` rather than `get_map`: this is not a use of the
+                    // key that the eviction policy should count.)
+                    if self.tiny_lfu.entry(key.clone(), |entry| {
+                        matches!(entry, tiny_lfu::Entry::Occupied(_))
+                    }) {
+                        return;
+                    }
+
                     let value = init();
 
-                    self.tiny_lfu.entry(key.clone(), |entry| match entry {
-                        tiny_lfu::Entry::Vacant(vaccant_entry) => {
-                            vaccant_entry.insert(Entry {
-                                value,
-                                pin_count: AtomicI32::new(0),
-                            });
-                        }
+                    // A write that was made after the registration has
+                    // invalidated the flight (see `insert` and `remove`): what
+                    // `init` has read may be older than that write, which may
+                    // have been committed, un-pinned and evicted by now, so
+                    // that finding the entry vacant proves nothing.
+                    flight.publish(|| {
+                        self.tiny_lfu.entry(key.clone(), |entry| match entry {
+                            tiny_lfu::Entry::Vacant(vaccant_entry) => {
+                                vaccant_entry.insert(Entry {
+                                    value,
+                                    pin_count: AtomicI32::new(0),
+                                });
+                            }
 
-                        tiny_lfu::Entry::Occupied(_) => {
-                            // Do nothing as there's an another thread inserted
-                            // an explicit value
-                        }
+                            tiny_lfu::Entry::Occupied(_) => {
+                                // Do nothing as there's an another thread
+                                // inserted an explicit value
+                            }
+                        });
                     });
                 })
                 .await;
@@ -100,7 +120,7 @@ impl<K: Eq + Hash + Clone + Send + Sync + 'static, V: Send + Sync + 'static, T>
     }
 
     pub fn insert(&self, key: K, value: V, updated: bool) {
-        let old_value = self.tiny_lfu.entry(key, |e| {
+        let old_value = self.tiny_lfu.entry(key.clone(), |e| {
             match e {
                 tiny_lfu::Entry::Vacant(vaccant_entry) => {
                     vaccant_entry.insert(Entry {
@@ -125,6 +145,11 @@ impl<K: Eq + Hash + Clone + Send + Sync + 'static, V: Send + Sync + 'static, T>
                 }
             }
         });
+
+        // Stop a load of this key that may have read the store before this
+        // write is committed. This must come after the write into the cache:
+        // a load that starts later looks into the cache first.
+        self.single_flight.invalidate(&key);
 
         // drop the value outside entry lock
         drop(old_value);
@@ -164,6 +189,9 @@ impl<K: Eq + Hash + Clone + Send + Sync + 'static, V: Send + Sync + 'static, T>
                 }
             }
         });
+
+        // see `insert`
+        self.single_flight.invalidate(key);
 
         drop(old_value);
     }
